@@ -25,6 +25,7 @@ from ..model import AnchorMissing, Func, Undecided, norm, walk_no_nested
 from ..report import Ctx
 
 DTYPES = {"u8": ("numpy.uint8", 255), "u16": ("numpy.uint16", 65535), "u32": ("numpy.uint32", 2**32 - 1), "u64": ("numpy.uint64", 2**64 - 1), "i64": ("numpy.int64", 2**63 - 1)}
+DTMIN = {"u8": 0, "u16": 0, "u32": 0, "u64": 0, "i64": -(2**63)}  # signed label arrays may hold negative values: they are labels too (and rejected downstream)
 
 
 class Arr:
@@ -37,25 +38,29 @@ class Flat(Arr):
 
 
 class NonZeroSel:
-    """arr[arr != 0]"""
+    """arr[arr != 0]  (positive: arr[arr > 0])"""
 
-    def __init__(self, dt):
+    def __init__(self, dt, positive=False):
         self.dt = dt
+        self.positive = positive
 
 
 class NZMask:
-    def __init__(self, of):
+    def __init__(self, of, positive=False):
         self.of = of
+        self.positive = positive  # `> 0` (drops negative values as well) rather than `!= 0`
 
 
 class USet:
     def __init__(self, lo, hi, zero, shift=0, card=False):
         self.lo, self.hi, self.zero, self.shift = lo, hi, zero, shift
 
-    def exact(self, dtmax) -> bool:
+    def exact(self, dtmax, dtmin=0) -> bool:
         if getattr(self, "dropped_smallest", False):
             return False  # without background in the array the smallest LABEL is dropped, not the 0
-        return self.shift == 0 and self.lo <= 1 and not self.zero and (self.hi is None or self.hi > dtmax)
+        # (a histogram cannot be built of negative values at all - that is an error, not a silent loss)
+        lo_ok = self.lo <= 1 if (dtmin == 0 or getattr(self, "from_hist", False)) else self.lo <= dtmin
+        return self.shift == 0 and lo_ok and not self.zero and (self.hi is None or self.hi > dtmax)
 
     def __repr__(self):
         if getattr(self, "dropped_smallest", False):
@@ -109,9 +114,9 @@ class EnumInterp(Interp):
 
     def compare_hook(self, op, l, r, node):
         if isinstance(l, Arr) and r == 0 and isinstance(op, (ast.NotEq, ast.Gt)):
-            return NZMask(l)
+            return NZMask(l, positive=isinstance(op, ast.Gt))
         if isinstance(l, USet) and r == 0 and isinstance(op, (ast.NotEq, ast.Gt)):
-            return NZMask(l)
+            return NZMask(l, positive=isinstance(op, ast.Gt))
         if isinstance(l, Hist) and r == 0 and isinstance(op, (ast.NotEq, ast.Gt)):
             return HistPos(l)
         if isinstance(l, Arr) and isinstance(r, int):
@@ -120,9 +125,13 @@ class EnumInterp(Interp):
 
     def subscript_hook(self, base, idx, node):
         if isinstance(base, Arr) and isinstance(idx, NZMask) and idx.of is base:
-            return NonZeroSel(base.dt)
+            return NonZeroSel(base.dt, idx.positive)
         if isinstance(base, USet) and isinstance(idx, NZMask) and idx.of is base:
-            return USet(max(base.lo, 1) if base.shift == 0 else base.lo, base.hi, False, base.shift)
+            if base.shift != 0:
+                return USet(base.lo, base.hi, False, base.shift)
+            u = USet(max(base.lo, 1) if (idx.positive or base.lo >= 0) else base.lo, base.hi, False, 0)
+            u.from_hist = getattr(base, "from_hist", False)
+            return u
         if isinstance(base, USet) and isinstance(idx, slice) and idx.step in (None, 1) and idx.stop is None and idx.start == 1:
             # the sorted distinct values without the first: drops 0 only if 0 is present, else a label
             u = USet(base.lo, base.hi, False, base.shift)
@@ -144,7 +153,9 @@ class EnumInterp(Interp):
 
     def binop_hook(self, op, l, r, node):
         if isinstance(l, USet) and isinstance(r, int) and isinstance(op, (ast.Add, ast.Sub)):
-            return USet(l.lo, l.hi, l.zero, l.shift + (r if isinstance(op, ast.Add) else -r))
+            u = USet(l.lo, l.hi, l.zero, l.shift + (r if isinstance(op, ast.Add) else -r))
+            u.from_hist = getattr(l, "from_hist", False)
+            return u
         return super().binop_hook(op, l, r, node)
 
     def call_builtin(self, name, args, kwargs, node):
@@ -156,7 +167,9 @@ class EnumInterp(Interp):
 
     def _from_hist(self, h: Hist) -> USet:
         # indices k (relative to the slice) with count > 0:  value - lo
-        return USet(h.lo, h.hi, h.lo == 0, shift=-h.lo)
+        u = USet(h.lo, h.hi, h.lo == 0, shift=-h.lo)
+        u.from_hist = True
+        return u
 
     def external_call(self, name, args, kwargs, node):
         a = args
@@ -165,9 +178,9 @@ class EnumInterp(Interp):
         if name == "numpy.unique" and len(a) == 1 and not kwargs:
             x = a[0]
             if isinstance(x, (Arr,)):
-                return USet(0, None, True)
+                return USet(DTMIN[x.dt], None, True)
             if isinstance(x, NonZeroSel):
-                return USet(1, None, False)
+                return USet(1 if (x.positive or DTMIN[x.dt] == 0) else DTMIN[x.dt], None, False)
             if isinstance(x, USet):
                 return x
         if name == "numpy.bincount" and a and isinstance(a[0], (Flat,)) and not (set(kwargs) - {"minlength"}):
@@ -177,7 +190,9 @@ class EnumInterp(Interp):
         if name in ("numpy.nonzero", "numpy.where") and len(a) == 1 and isinstance(a[0], (Hist, HistPos)):
             return (self._from_hist(a[0] if isinstance(a[0], Hist) else a[0].h),)
         if name in ("numpy.setdiff1d",) and len(a) == 2 and isinstance(a[0], USet) and a[1] in ([0], (0,), 0):
-            return USet(max(a[0].lo, 1) if a[0].shift == 0 else a[0].lo, a[0].hi, False, a[0].shift)
+            u = USet((max(a[0].lo, 1) if a[0].lo >= 0 else a[0].lo) if a[0].shift == 0 else a[0].lo, a[0].hi, False, a[0].shift)
+            u.from_hist = getattr(a[0], "from_hist", False)
+            return u
         if name == "numpy.iinfo" and a and isinstance(a[0], Sym):
             return super().external_call(name, args, kwargs, node)
         if name in ("numpy.count_nonzero",) and len(a) == 1 and isinstance(a[0], (Hist, HistPos)):
@@ -259,7 +274,7 @@ def check_label_enumeration(ctx: Ctx):
                 if us is None:
                     ctx.undecided("R09.6", f, out.node, construct, f"result outside the modelled label-set expressions: {v!r}"[:160])
                     continue
-                ctx.decide("R09.6", f, out.node, construct, "the helper yields exactly the non-zero values present in the array" + (" (their number)" if kind == "count" else ""), us.exact(dtmax), {"got": repr(us), "dtype_max": dtmax})
+                ctx.decide("R09.6", f, out.node, construct, "the helper yields exactly the non-zero values present in the array" + (" (their number)" if kind == "count" else ""), us.exact(dtmax, DTMIN[dt]), {"got": repr(us), "dtype_max": dtmax, "dtype_min": DTMIN[dt]})
     if n < 10:
         ctx.undecided("R09.6.floor", None, None, "floor:R09.6", f"{n} enumeration paths evaluated, confirmed floor is 10")
 
@@ -286,7 +301,7 @@ def verified_enumerators(prog) -> dict:
             for o in outs:
                 v = o.value if o.kind == "return" else None
                 us = v.of if isinstance(v, Card) else v if isinstance(v, USet) else None
-                if us is None or not us.exact(dtmax):
+                if us is None or not us.exact(dtmax, DTMIN[dt]):
                     ok = False
                     break
                 kinds.add("count" if isinstance(v, Card) else "set")
